@@ -2,6 +2,8 @@ import CifModel.Lemmas.LadderDup
 import CifModel.Lemmas.LadderClone
 import CifModel.Lemmas.LadderNames
 import CifModel.Lemmas.LadderShape
+import CifModel.Lemmas.LadderPacket
+import CifModel.Lemmas.LadderDeser
 /-
   CifModel.Lemmas.LadderSummary — the ladder summaries specialised to a call that starts with an empty window
   (no request made yet, nothing live): the statements the property theorems of Props/C17 restate.
@@ -105,24 +107,50 @@ theorem insert_summary (k : Nat) (full : Bool) (sh : Shape) :
     rw [h1, h2]
     refine ⟨h4.1, .inr rfl, by simp [OK_ne_MEMORY_ERROR], by simpa [OK_ne_MEMORY_ERROR] using b.2.2.1, by simp⟩
 
-theorem set_outcome (k : Nat) (sh : Shape) :
-    Good k (allocs sh) {} (setElement k sh).2.2 ∨ Bad k (allocs sh) {} (setElement k sh).2.2 := by
-  rcases setElement_spec k sh {} [] Inv.nil with ⟨_, h⟩ | h
+/-- `fault_of_outcomes` for a call that starts in an arbitrary state `s` (requests are numbered on from `s.count`) -/
+theorem fault_of_outcomes_from {k N : Nat} {s s0 sk : St} (h0 : Good 0 N s s0 ∨ Bad 0 N s s0)
+    (hk : Good k N s sk ∨ Bad k N s sk) :
+    (failIds sk.evs ≠ failIds s.evs ↔ s.count < k ∧ k ≤ s0.count) ∧
+    (failIds sk.evs ≠ failIds s.evs → failIds sk.evs = failIds s.evs ++ [k] ∧ sk.count = k) ∧
+    (failIds sk.evs = failIds s.evs → sk.count = s0.count) := by
+  have hc : s0.count = s.count + N := by
+    rcases h0 with h0 | h0
+    · exact h0.1
+    · have := h0.1; omega
+  rw [hc]
+  rcases hk with hk | hk
+  · unfold Good at hk
+    exact ⟨⟨fun h => absurd hk.2.2 h, fun h => absurd h hk.2.1⟩, fun h => absurd hk.2.2 h, fun _ => hk.1⟩
+  · unfold Bad at hk
+    have hne : failIds sk.evs ≠ failIds s.evs := by
+      rw [hk.2.2.2]; intro h
+      have := congrArg List.length h
+      simp at this
+    exact ⟨⟨fun _ => ⟨hk.1, hk.2.1⟩, fun _ => hne⟩, fun _ => ⟨hk.2.2.2, hk.2.2.1⟩, fun h => absurd h hne⟩
+
+theorem set_outcome (k : Nat) (old : Owned) (sh : Shape) (s : St) (rest : List Nat)
+    (hb : Balanced s.evs (old.ids ++ rest)) (hc : ∀ i ∈ old.ids ++ rest, i ≤ s.count) :
+    Good k (1 + allocs sh) s (setElement k old sh s).2.2 ∨ Bad k (1 + allocs sh) s (setElement k old sh s).2.2 := by
+  rcases setElement_spec k old sh s rest ⟨hb, hc⟩ with ⟨_, h⟩ | h
   · exact .inl h.2.2.1
   · exact .inr h.2.2.1
 
-theorem set_summary (k : Nat) (sh : Shape) :
-    Balanced (setElement k sh).2.2.evs (match (setElement k sh).2.1 with | some g => g | none => []) ∧
-    ((setElement k sh).1 = OK ∨ (setElement k sh).1 = MEMORY_ERROR) ∧
-    ((setElement k sh).1 = OK ↔ (setElement k sh).2.1.isSome) ∧
-    ((setElement k sh).1 = OK ↔ NoFail (setElement k sh).2.2.evs) := by
-  rcases setElement_spec k sh {} [] Inv.nil with ⟨g, h1, h2, h3, h4⟩ | ⟨h1, h2, h3, h4⟩
-  · have g' := good_init h3
-    rw [h1, h2]
-    exact ⟨by simpa using h4.1, .inl rfl, by simp, by simpa using g'.2.2.1⟩
-  · have b := bad_init h3
-    rw [h1, h2]
-    exact ⟨h4.1, .inr rfl, by simp [OK_ne_MEMORY_ERROR], by simpa [OK_ne_MEMORY_ERROR] using b.2.2.1⟩
+theorem set_summary (k : Nat) (old : Owned) (sh : Shape) (s : St) (rest : List Nat)
+    (hb : Balanced s.evs (old.ids ++ rest)) (hc : ∀ i ∈ old.ids ++ rest, i ≤ s.count) :
+    ((setElement k old sh s).1 = OK ∨ (setElement k old sh s).1 = MEMORY_ERROR) ∧
+    ((setElement k old sh s).1 = OK ↔ (setElement k old sh s).2.1.isSome) ∧
+    Balanced (setElement k old sh s).2.2.evs
+      (match (setElement k old sh s).2.1 with | some g => old.obj :: g ++ rest | none => old.ids ++ rest) ∧
+    ((setElement k old sh s).1 = OK ↔ failIds (setElement k old sh s).2.2.evs = failIds s.evs) := by
+  rcases setElement_spec k old sh s rest ⟨hb, hc⟩ with ⟨g, h1, h2, h3, h4⟩ | ⟨h1, h2, h3, h4⟩
+  · rw [h1, h2]
+    exact ⟨.inl rfl, by simp, h4.1, by simpa using h3.2.2⟩
+  · rw [h1, h2]
+    have hne : failIds (setElement k old sh s).2.2.evs ≠ failIds s.evs := by
+      rw [h3.2.2.2]; intro h
+      have := congrArg List.length h
+      simp at this
+    exact ⟨.inr rfl, by simp [OK_ne_MEMORY_ERROR], h4.1, by simpa [OK_ne_MEMORY_ERROR] using hne⟩
 
 -- ---------------------------------------------------------------------------------------------------------------
 -- cif_loop_get_names
@@ -204,5 +232,106 @@ theorem names_pinned_summary (k n : Nat) :
     rw [h2] at p
     simp only [List.nil_append] at p
     exact hne (List.Perm.nil_eq p).symm
+
+-- ---------------------------------------------------------------------------------------------------------------
+-- cif_value_copy_char
+
+theorem copyChar_outcome (k : Nat) (old : Owned) (s : St) (rest : List Nat)
+    (hb : Balanced s.evs (old.ids ++ rest)) (hc : ∀ i ∈ old.ids ++ rest, i ≤ s.count) :
+    Good k 1 s (copyChar k old s).2.2 ∨ Bad k 1 s (copyChar k old s).2.2 := by
+  rcases copyChar_spec k old s rest ⟨hb, hc⟩ with ⟨_, h⟩ | h
+  · exact .inl h.2.2.1
+  · exact .inr h.2.2.1
+
+theorem copyChar_summary (k : Nat) (old : Owned) (s : St) (rest : List Nat)
+    (hb : Balanced s.evs (old.ids ++ rest)) (hc : ∀ i ∈ old.ids ++ rest, i ≤ s.count) :
+    ((copyChar k old s).1 = OK ∨ (copyChar k old s).1 = MEMORY_ERROR) ∧
+    ((copyChar k old s).1 = OK ↔ (copyChar k old s).2.1.isSome) ∧
+    Balanced (copyChar k old s).2.2.evs
+      (match (copyChar k old s).2.1 with | some g => old.obj :: g ++ rest | none => old.ids ++ rest) ∧
+    ((copyChar k old s).1 = OK ↔ failIds (copyChar k old s).2.2.evs = failIds s.evs) := by
+  rcases copyChar_spec k old s rest ⟨hb, hc⟩ with ⟨t, h1, h2, h3, h4⟩ | ⟨h1, h2, h3, h4⟩
+  · rw [h1, h2]
+    exact ⟨.inl rfl, by simp, by simpa using h4.1, by simpa using h3.2.2⟩
+  · rw [h1, h2]
+    have hne : failIds (copyChar k old s).2.2.evs ≠ failIds s.evs := by
+      rw [h3.2.2.2]; intro h
+      have := congrArg List.length h
+      simp at this
+    exact ⟨.inr rfl, by simp [OK_ne_MEMORY_ERROR], h4.1, by simpa [OK_ne_MEMORY_ERROR] using hne⟩
+
+-- ---------------------------------------------------------------------------------------------------------------
+-- cif_packet_create
+
+theorem packet_outcome (fixed : Bool) (k : Nat) (flags : List Bool) :
+    Good k (packetAllocs flags) {} (packetCreateGen fixed k flags).2.2 ∨
+    Bad k (packetAllocs flags) {} (packetCreateGen fixed k flags).2.2 := by
+  rcases packetCreateGen_spec fixed k flags {} [] Inv.nil with ⟨_, h⟩ | h | h
+  · exact .inl h.2.2.1
+  · exact .inr h.2.2.1
+  · exact .inr h.2.2.2.2.2
+
+theorem UNDEFINED_ne_OK : UNDEFINED ≠ OK := by decide
+theorem UNDEFINED_ne_MEMORY_ERROR : UNDEFINED ≠ MEMORY_ERROR := by decide
+
+/-- what C17 demands of one run of the packet ladder -/
+def PacketRunOk (r : Nat × Option PacketOwned × St) : Prop :=
+  Balanced r.2.2.evs (match r.2.1 with | some p => p.ids | none => []) ∧
+  (r.1 = OK ∨ r.1 = MEMORY_ERROR) ∧ (r.1 = OK ↔ r.2.1.isSome) ∧ (r.1 = OK ↔ NoFail r.2.2.evs)
+
+/-- both variants: either the run satisfies `PacketRunOk`, or (only the code as it is, only for a non-empty packet, only
+    when the failed request is uthash's table: request 3n + 4) it runs into undefined behaviour -/
+theorem packet_gen_summary (fixed : Bool) (k : Nat) (flags : List Bool) :
+    ((packetCreateGen fixed k flags).1 = UNDEFINED ↔ fixed = false ∧ flags ≠ [] ∧ k = 3 * flags.length + 4) ∧
+    ((packetCreateGen fixed k flags).1 = UNDEFINED → failIds (packetCreateGen fixed k flags).2.2.evs = [k]) ∧
+    ((packetCreateGen fixed k flags).1 ≠ UNDEFINED → PacketRunOk (packetCreateGen fixed k flags)) := by
+  rcases packetCreateGen_spec fixed k flags {} [] Inv.nil with ⟨p, h1, h2, h3, h4⟩ | ⟨h1, h2, h3, h4, h5⟩ | ⟨h1, h2, h3, h4, h5, h6⟩
+  · have g := good_init h3
+    have hne : (packetCreateGen fixed k flags).1 ≠ UNDEFINED := by rw [h1]; exact UNDEFINED_ne_OK.symm
+    refine ⟨⟨fun h => absurd h hne, fun ⟨_, hf, hk⟩ => ?_⟩, fun h => absurd h hne, fun _ => ?_⟩
+    · exfalso
+      have := g.2.1
+      have hn : flags.length ≠ 0 := fun h0 => hf (List.eq_nil_of_length_eq_zero h0)
+      unfold packetAllocs normAllocs at this
+      rw [if_neg hn] at this
+      omega
+    · unfold PacketRunOk
+      rw [h1, h2]
+      exact ⟨by simpa using h4.1, .inl rfl, by simp, by simpa using g.2.2.1⟩
+  · have b := bad_init h3
+    have hne : (packetCreateGen fixed k flags).1 ≠ UNDEFINED := by rw [h1]; exact UNDEFINED_ne_MEMORY_ERROR.symm
+    refine ⟨⟨fun h => absurd h hne, fun ⟨hfx, hf, hk⟩ => ?_⟩, fun h => absurd h hne, fun _ => ?_⟩
+    · exfalso
+      have := h5 (by simpa using hk) hf
+      rw [hfx] at this; cases this
+    · unfold PacketRunOk
+      rw [h1, h2]
+      exact ⟨h4.1, .inr rfl, by simp [OK_ne_MEMORY_ERROR], by simpa [OK_ne_MEMORY_ERROR] using b.2.2.1⟩
+  · have b := bad_init h6
+    exact ⟨⟨fun _ => ⟨h3, h4, by simpa using h5⟩, fun _ => h1⟩, fun _ => b.2.2.2.1, fun h => absurd h1 h⟩
+
+-- ---------------------------------------------------------------------------------------------------------------
+-- cif_value_deserialize
+
+theorem deser_outcome (k : Nat) (elems : List DShape) :
+    Good k (deserAllocs elems) {} (deserialize k elems).2.2 ∨ Bad k (deserAllocs elems) {} (deserialize k elems).2.2 := by
+  rcases deserialize_spec k elems {} [] Inv.nil with ⟨_, h⟩ | h
+  · exact .inl h.2.2.1
+  · exact .inr h.2.2.1
+
+theorem OK_ne_ERROR : ERROR ≠ OK := by decide
+
+theorem deser_summary (k : Nat) (elems : List DShape) :
+    Balanced (deserialize k elems).2.2.evs (match (deserialize k elems).2.1 with | some g => g | none => []) ∧
+    ((deserialize k elems).1 = OK ∨ (deserialize k elems).1 = ERROR) ∧
+    ((deserialize k elems).1 = OK ↔ (deserialize k elems).2.1.isSome) ∧
+    ((deserialize k elems).1 = OK ↔ NoFail (deserialize k elems).2.2.evs) := by
+  rcases deserialize_spec k elems {} [] Inv.nil with ⟨g, h1, h2, h3, h4⟩ | ⟨h1, h2, h3, h4⟩
+  · have g' := good_init h3
+    rw [h1, h2]
+    exact ⟨by simpa using h4.1, .inl rfl, by simp, by simpa using g'.2.2.1⟩
+  · have b := bad_init h3
+    rw [h1, h2]
+    exact ⟨h4.1, .inr rfl, by simp [OK_ne_ERROR], by simpa [OK_ne_ERROR] using b.2.2.1⟩
 
 end CifModel.Lemmas.Ladder
